@@ -72,7 +72,7 @@ PROPS["C01"] = {
     "level": "proof",
     "streams": ["cache"],
     "ops": ["refresh"],
-    "clauses": "panic|resolution|listing",
+    "clauses": "panic|resolution|listing|api-consistency",
     "trusted_base": CACHE_TB,
     "assumptions": ["files taking part in a same-priority conflict count as files in error (I1)"],
     "technique": "Lean 4 proof: refresh fold refined to a per-name fold, invariant over ascending-priority scans => resolution = declarative winner; lower-priority irrelevance, walk-order invariance, listings; correspondence on real directory trees",
